@@ -14,6 +14,11 @@ CLAIMS = {
         text="Decides that TEMPO and PT-TEMPO are wired to the same inputs at the same step indices (S1 influence arguments by origin, S2 propagator/step alignment, S3 role-typed plumbing, S4 dkmax/unique provenance). Numerical agreement of the two contractions is not decided.",
         note="Trusted: Python ast; def-use engine; role vocabulary (oqv/roles.py). Partial claim: wiring only.",
         ref="2/C02"),
+    "C01": dict(
+        technique="path-conditioned reaching definitions (sign of dk, None-ness of dkmax / add_correlation_time, order of step and dkmax decided per case) with Laurent-polynomial forms of the cell bounds, influence indices and split indices; keyword binding of every truncating call",
+        text="Claims C01 in part: the clause 'the memory settings have exactly their documented meaning' and the tolerance clause, as far as they are visible in the shape of the code - which grid cell of the autocorrelation function is integrated per separation and memory setting (N1), which separation enters the TEMPO / PT-TEMPO network at which step (N2), the tcut <-> dkmax conversion (N3), every truncation uses the requested relative tolerance only (N4). Each is a necessary condition. Equality of the states with the analytic independent-boson solution or the explicit finite-mode evolution is not decided.",
+        note="Trusted: Python ast; CFG/def-use engine; NodeArray.split/join argument order (index, far side first). Partial claim: structural necessary conditions only.",
+        ref="7.2 (C01)"),
     "C03": dict(
         technique="sibling cross-check of the leg-role table of all PT-MPO consumers (edge-connection sites classified by role), convention check of superoperator/cap application, guard presence, index-position discipline of the environment list",
         text="Claims C03 in part: structural necessary conditions - all five consumers of a PT-MPO tensor agree on (past bond, future bond, system in, system out) and on the rank-3 delta expansion (M1), one convention for applying system superoperators and caps (M2), input guards (M3), list position of a process tensor only selects its own bond leg / cap / MPO (M4). Exactness against an independent joint evolution is not decided; an error shared by producer and all consumers is invisible to this cross-check.",
@@ -107,7 +112,6 @@ CLAIMS = {
 }
 
 NOT_APPLICABLE = {
-    "C01": "equality of computed density matrices with an analytic solution quantifies over floating-point results of tensor contractions and quadratures; no sound static abstraction in reach bounds them. Its only shape-visible parts are decided under C12 (L1-L3) and C02 (S1).",
 }
 
 
